@@ -59,6 +59,7 @@ OPS = [
 
 OPS_EXTRA = True
 OPS_SHADOW = True
+OPS_PROV = True
 SIBLINGS = [('copyable', 'cloneable'), ('cloneable', 'defaultable'), ('size', 'alignment'), ('prologue', 'epilogue'), ('target_size', 'size'),
             ('singleton', 'align'), ('base_name', 'original_name'), ('size', 'region_size'), ('last_address', 'size'), ('visibility', 'Visibility::Private'),
             ('doc', 'None'), ('idx', 'index'), ('associated_functions', 'vftable_functions'), ('base_vfunc', 'derived_vfunc'), ('scope_types', 'scope_modules'),
@@ -149,6 +150,29 @@ def mutants_of(rel):
                     out.append((rel, i, l, l[:m.start()] + y_ + l[m.end():], 'sibling: %s -> %s' % (x_, y_)))
                 for m in re.finditer(r'(?<=\.)%s\b(?!\()' % re.escape(x_), ls):
                     out.append((rel, i, l, l[:m.start()] + y_ + l[m.end():], 'sibling field: .%s -> .%s' % (x_, y_)))
+        # provenance of values (run 8): a struct-literal field defaulted, `.clone()` replaced by a default, a value passed through
+        # a "harmless" step (`.min(..)`, `.max(..)`, `.rev()`, `.take(1)`, `.trim()`), `?`-less early `return Ok(..)`
+        if OPS_PROV:
+            m = re.match(r'^(\s+)([a-z_][a-z0-9_]*),$', l)
+            if m:
+                out.append((rel, i, l, '%s%s: Default::default(),' % (m.group(1), m.group(2)), 'field %s defaulted' % m.group(2)))
+            m = re.match(r'^(\s+)([a-z_][a-z0-9_]*): (.+),$', l)
+            if m and 'Default::default()' not in l and '=>' not in l and not l.strip().startswith(('fn ', 'pub ')):
+                out.append((rel, i, l, '%s%s: Default::default(),' % (m.group(1), m.group(2)), 'field %s defaulted' % m.group(2)))
+                if re.match(r'^[\w\.\(\)&\*]+$', m.group(3)):
+                    for step, what in (('.max(1)', 'max(1)'), ('.min(8)', 'min(8)'), ('.into_iter().rev().collect()', 'reversed'), ('.into_iter().take(1).collect()', 'take(1)')):
+                        out.append((rel, i, l, '%s%s: %s%s,' % (m.group(1), m.group(2), m.group(3), step), 'field %s through %s' % (m.group(2), what)))
+            for m in re.finditer(r'\b[a-z_][\w\.]*\.clone\(\)', ls):
+                out.append((rel, i, l, l[:m.start()] + 'Default::default()' + l[m.end():], 'clone -> default'))
+            for m in re.finditer(r'\.as_str\(\)', ls):
+                out.append((rel, i, l, l[:m.end()] + '.trim_end_matches(char::is_numeric)' + l[m.end():], 'as_str() trimmed'))
+            for m in re.finditer(r'\.(collect::<Vec<_>>\(\)|collect\(\))', ls):
+                out.append((rel, i, l, l[:m.start()] + '.take(1)' + l[m.start():], 'take(1) before collect'))
+            for m in re.finditer(r'\b(\w+)\.to_vec\(\)', ls):
+                out.append((rel, i, l, l[:m.start()] + m.group(1) + '[..1.min(' + m.group(1) + '.len())].to_vec()' + l[m.end():], 'to_vec truncated'))
+            m = re.match(r'^(\s*)let (?:mut )?([a-z_][a-z0-9_]*) = (.*)\?;$', l)
+            if m:
+                out.append((rel, i, l, '%slet %s = match %s { Ok(v) => v, Err(_) => return Ok(Default::default()) };' % (m.group(1), m.group(2), m.group(3)), 'error turned into Ok(default)'))
         # Some(x) -> None in a return position
         m = re.match(r'^(\s*)(return )?Some\((.*)\)(;?)$', l)
         if m and 'Ok(' not in l:
@@ -219,7 +243,7 @@ def main():
         allm += mutants_of(f)
     only = opt('--only', None)
     if only:
-        allm = [m for m in allm if only in m[4]]
+        allm = [m for m in allm if re.search(only, m[4])]
     prev = opt('--skip-done', None)
     if prev and os.path.exists(prev):
         done = {(r['file'], r['line'], r['new']) for r in json.load(open(prev))}
